@@ -14,7 +14,7 @@ _A07 = [
 _A09 = [
     "wake mode uses a 30-60 min backstop so that completion cannot come from it; poll mode keeps a 100-200 us poll period (there the timed sleep is the design, not a backstop)",
     "the pool is used from one thread only; no call races the destructor, resize or setSignalingWake",
-    "thread census through /proc/self/task is identity-free (count of live non-harness threads), so recycled tids cannot produce a verdict",
+    "thread census through /proc/self/task: count of live non-harness threads, plus identity of the stopped generation by (tid, thread start time) so that a recycled tid cannot produce a verdict",
 ]
 
 PROPS = {
@@ -49,8 +49,8 @@ PROPS = {
                              "at-call:parked", "at-call:spinning", "at-call:busy"],
         "assumptions": _A09,
         "runs": {
-            "quick": [{"config": "plain", "shards": 16}, {"config": "tsan", "shards": 16, "args": {"n": 240}}],
-            "thorough": [{"config": "plain", "shards": 16, "seeds": 2}, {"config": "tsan", "shards": 16, "args": {"n": 2400}}],
+            "quick": [{"config": "plain", "shards": 16}, {"config": "tsan", "shards": 16, "args": {"n": 208, "nmax": 9}}],
+            "thorough": [{"config": "plain", "shards": 16, "seeds": 2}, {"config": "tsan", "shards": 16, "args": {"n": 2400, "nmax": 12}}],
         },
     },
 }
